@@ -2,40 +2,67 @@ use crate::macros::dispatch;
 
 pub use methods::dispatch as pow;
 
+use crate::{CelError, CelResult};
+
+/// Integer exponents are non-negative and fit in 32 bits; anything else has no integer result.
+fn int_exponent<T: TryInto<u32>>(n2: T) -> CelResult<u32> {
+    n2.try_into()
+        .map_err(|_| CelError::value("pow() exponent is out of range for an integer base"))
+}
+
+fn float_exponent(n2: f64) -> CelResult<u32> {
+    if n2 >= 0.0 && n2 <= u32::MAX as f64 && n2.fract() == 0.0 {
+        Ok(n2 as u32)
+    } else {
+        Err(CelError::value("pow() exponent is out of range for an integer base"))
+    }
+}
+
+fn overflow() -> CelError {
+    CelError::value("pow() result is out of range")
+}
+
 #[dispatch]
 mod methods {
-    use crate::CelValue;
+    use super::{float_exponent, int_exponent, overflow};
+    use crate::{CelResult, CelValue};
 
-    fn pow(n1: i64, n2: i64) -> i64 {
-        n1.pow(n2 as u32)
+    fn pow(n1: i64, n2: i64) -> CelResult<i64> {
+        n1.checked_pow(int_exponent(n2)?).ok_or_else(overflow)
     }
 
-    fn pow(n1: i64, n2: u64) -> i64 {
-        n1.pow(n2 as u32)
+    fn pow(n1: i64, n2: u64) -> CelResult<i64> {
+        n1.checked_pow(int_exponent(n2)?).ok_or_else(overflow)
     }
 
-    fn pow(n1: i64, n2: f64) -> i64 {
-        n1.pow(n2 as u32)
+    fn pow(n1: i64, n2: f64) -> CelResult<i64> {
+        n1.checked_pow(float_exponent(n2)?).ok_or_else(overflow)
     }
 
-    fn pow(n1: u64, n2: i64) -> u64 {
-        n1.pow(n2 as u32)
+    fn pow(n1: u64, n2: i64) -> CelResult<u64> {
+        n1.checked_pow(int_exponent(n2)?).ok_or_else(overflow)
     }
 
-    fn pow(n1: u64, n2: u64) -> u64 {
-        n1.pow(n2 as u32)
+    fn pow(n1: u64, n2: u64) -> CelResult<u64> {
+        n1.checked_pow(int_exponent(n2)?).ok_or_else(overflow)
     }
 
-    fn pow(n1: u64, n2: f64) -> u64 {
-        n1.pow(n2 as u32)
+    fn pow(n1: u64, n2: f64) -> CelResult<u64> {
+        n1.checked_pow(float_exponent(n2)?).ok_or_else(overflow)
     }
 
     fn pow(n1: f64, n2: i64) -> f64 {
-        n1.powi(n2 as i32)
+        match i32::try_from(n2) {
+            Ok(e) => n1.powi(e),
+            Err(_) => n1.powf(n2 as f64),
+        }
     }
 
     fn pow(n1: f64, n2: u64) -> f64 {
-        n1.powi(n2 as i32)
+        match i32::try_from(n2) {
+            Ok(e) => n1.powi(e),
+            Err(_) => n1.powf(n2 as f64),
+        }
     }
 
     fn pow(n1: f64, n2: f64) -> f64 {
